@@ -420,6 +420,16 @@ def _reshape_minus1_with_zero_dim(case):
     return False
 
 
+def _result_has_clip_with_inputs(case):
+    """The rewritten model has a Clip with bound INPUTS that the original did not have."""
+    from vf.props import C05
+
+    m = M(case)
+    had = sum(1 for n in nodes(m, "Clip") if len(n.input) > 1)
+    r = C05.apply_rule(m, rule_of(case), case.get("commute", False))
+    return r[0] == "ok" and sum(1 for n in nodes(r[2], "Clip") if len(n.input) > 1) > had
+
+
 def _result_has_new_allowzero(case):
     """The rewritten model has a Reshape carrying an allowzero attribute that the original did not have (the recorded defect is exactly
     that attribute below opset 14; any other failure of the rule on such a model is not this finding)."""
@@ -499,6 +509,7 @@ C05_REGIONS = {
     "rule_treats_initializer_input_as_constant": vanishes_with_default_initializers,
     "noop_arith_constant_within_tolerance": lambda c: (_rule(c, "mul_by_1_rule") and _near_literal(M(c), "Mul", 1.0)) or (_rule(c, "div_by_1_rule") and _near_literal(M(c), "Div", 1.0))
     or (_rule(c, "add_0_rule") and _near_literal(M(c), "Add", 0.0)) or (_rule(c, "sub_0_rule") and _near_literal(M(c), "Sub", 0.0)),
+    "minmax_to_clip_before_opset11": lambda c: _rule(c, "min_max_rule", "max_min_rule") and (opset(M(c)) or 99) < 11 and _result_has_clip_with_inputs(c),
     "minmax_clip_bounds_size1_not_rank0": lambda c: _rule(c, "min_max_rule", "max_min_rule") and _size1_rank_ge1_const_operand(M(c), ("Min", "Max")),
     "clip_chain_disjoint_or_inverted": lambda c: _rule(c, "successive_clip_rule") and _clip_chain_order_matters(M(c)),
     "clip_opset_lt11_attribute_form": lambda c: _rule(c, "successive_clip_rule", "successive_relu_clip_rule", "successive_clip_relu_rule") and _old_clip_attr_form(M(c)),
@@ -639,8 +650,10 @@ def _stepwise_reduction(case, m, feeds, known, max_steps=24):
     return False
 
 
-def _live_values(m):
-    """Values needed (transitively) by the graph outputs of the main graph; uses inside subgraphs count for the owning node."""
+def _live_values(m, shape_only_ops=()):
+    """Values needed (transitively) by the graph outputs of the main graph; uses inside subgraphs count for the owning node.
+    shape_only_ops: operators that read only the shape of their first input (folded away when that shape is static) - their first
+    input is not counted as needed."""
     prod = {}
     for n in m.graph.node:
         for o in n.output:
@@ -662,7 +675,7 @@ def _live_values(m):
         live.add(v)
         n = prod.get(v)
         if n is not None:
-            todo += node_inputs(n)
+            todo += node_inputs(n)[1:] if n.op_type in shape_only_ops else node_inputs(n)
     return live
 
 
@@ -678,7 +691,7 @@ def bn_training_mode_unused_stats(case):
     """BatchNormalization<training_mode=1> whose running_mean/running_var outputs are dead: onnx_ir's RemoveUnusedNodesPass (run by
     optimize/rewrite) blanks those outputs and pops training_mode, turning batch statistics into inference statistics."""
     m = M(case)
-    live = _live_values(m)
+    live = _live_values(m, shape_only_ops=("Shape", "Size"))  # (a statistic read only through Shape/Size is dead once that is folded)
     for n in m.graph.node:
         if n.op_type == "BatchNormalization" and attr(n, "training_mode", 0) and len(n.output) > 1 and n.output[0] in live \
                 and not any(o in live for o in n.output[1:] if o):
